@@ -399,4 +399,253 @@ Section D.
     eapply tp_ext_value; [apply tp_divide; eassumption|].
     D_norm. fold va vb. change (Pos.to_nat 2) with 2%nat. ring.
   Qed.
+
+  Lemma D_case_power a b : D_P a -> D_P b -> D_P (Power a b).
+  Proof.
+    intros IHa IHb Hwf Hs Hd.
+    pose proof (Heval p (Power a b) Hwf Hs Hd) as En. cbn [denote] in En.
+    cbn [wf InDomain] in Hwf, Hd. destruct Hwf as [Hwa Hwb]. destruct Hd as [Hda [Hdb Ha0]].
+    apply D_supplies_app with (a := a) (b := b) in Hs; [|reflexivity]. destruct Hs as [Hsa Hsb].
+    destruct (IHa Hwa Hsa Hda) as [da [Hfa Hta]].
+    destruct (IHb Hwb Hsb Hdb) as [db [Hfb Htb]].
+    pose proof (Heval p a Hwa Hsa Hda) as Ea.
+    pose proof (Heval p b Hwb Hsb Hdb) as Eb.
+    set (va := denote rho a) in *. set (vb := denote rho b) in *.
+    (* the general branch *)
+    assert (Hgen : exists d, D_power_main a b = Val d /\ true_partial rho (Power a b) v d).
+    { unfold D_power_main, power_formula_left, power_formula_right.
+      rewrite En, Ea, Eb. cbn [bind].
+      rewrite D_verify_power by exact Ha0. cbn [bind].
+      rewrite Hfa, Hfb. cbn [bind].
+      rewrite D_mf_power by exact Ha0. cbn [bind].
+      rewrite D_mf_logarithm_e by exact Ha0. cbn [bind].
+      eexists; split; [reflexivity|].
+      eapply tp_ext_value; [apply tp_power; eassumption|].
+      D_norm. fold va vb. change (n1 RInst) with 1. ring. }
+    rewrite D_fwd_Power, En. cbn [bind]. unfold power_shortcut.
+    destruct (var_free a) eqn:Evf.
+    - rewrite Ea. cbn [bind].
+      change (neqb RInst va (n1 RInst)) with (Reqb va 1).
+      destruct (Reqb va 1) eqn:E1; [apply Reqb_true in E1 | exact Hgen].
+      exists 0. split; [reflexivity|].
+      eapply tp_ext_value.
+      + apply tp_power; [exact Ha0 | apply tp_absent | exact Htb].
+        rewrite (D_var_free_vars a Evf). intros [].
+      + fold va vb. rewrite E1, ln_1. ring.
+    - cbn [bind]. exact Hgen.
+  Qed.
+
+  (** common start of the unary cases *)
+  Lemma D_unary_start (e a : expr R) (da : R) :
+    evalR p a = Val (denote rho a) ->
+    unary_verify RInst e (denote rho a) = Val tt ->
+    fwdR v p a = Val da ->
+    D_unary e a = unary_formula RInst p e da.
+  Proof.
+    intros Ea Hv Hfa. unfold D_unary. rewrite Ea. cbn [bind]. rewrite Hv. cbn [bind].
+    rewrite Hfa. reflexivity.
+  Qed.
+
+  Lemma D_case_neg a : D_P a -> D_P (Neg a).
+  Proof.
+    intros IHa Hwf Hs Hd. cbn [wf InDomain] in Hwf, Hd.
+    apply D_supplies_same with (a := a) in Hs; [|reflexivity].
+    destruct (IHa Hwf Hs Hd) as [da [Hfa Hta]].
+    pose proof (Heval p a Hwf Hs Hd) as Ea.
+    rewrite D_fwd_Neg, (D_unary_start (Neg a) a da Ea eq_refl Hfa).
+    exists (- da). split; [reflexivity | apply tp_neg; exact Hta].
+  Qed.
+
+  Lemma D_case_recip a : D_P a -> D_P (Recip a).
+  Proof.
+    intros IHa Hwf Hs Hd. cbn [wf InDomain] in Hwf, Hd. destruct Hd as [Hd Ha0].
+    apply D_supplies_same with (a := a) in Hs; [|reflexivity].
+    destruct (IHa Hwf Hs Hd) as [da [Hfa Hta]].
+    pose proof (Heval p a Hwf Hs Hd) as Ea.
+    rewrite D_fwd_Recip, (D_unary_start (Recip a) a da Ea (D_verify_reciprocal _ Ha0) Hfa).
+    cbn [unary_formula]. rewrite Ea. cbn [bind].
+    rewrite D_mf_nth_power. cbn [bind].
+    rewrite D_mf_divide by (apply pow_nonzero; exact Ha0). cbn [bind].
+    eexists; split; [reflexivity|].
+    eapply tp_ext_value; [apply tp_recip; eassumption|].
+    D_norm. change (Pos.to_nat 2) with 2%nat. reflexivity.
+  Qed.
+
+  Lemma D_case_sin a : D_P a -> D_P (Sin a).
+  Proof.
+    intros IHa Hwf Hs Hd. cbn [wf InDomain] in Hwf, Hd.
+    apply D_supplies_same with (a := a) in Hs; [|reflexivity].
+    destruct (IHa Hwf Hs Hd) as [da [Hfa Hta]].
+    pose proof (Heval p a Hwf Hs Hd) as Ea.
+    rewrite D_fwd_Sin, (D_unary_start (Sin a) a da Ea eq_refl Hfa).
+    cbn [unary_formula]. rewrite Ea. cbn [bind]. rewrite D_mf_cosine. cbn [bind].
+    eexists; split; [reflexivity|].
+    eapply tp_ext_value; [apply tp_sin; eassumption|].
+    D_norm. ring.
+  Qed.
+
+  Lemma D_case_cos a : D_P a -> D_P (Cos a).
+  Proof.
+    intros IHa Hwf Hs Hd. cbn [wf InDomain] in Hwf, Hd.
+    apply D_supplies_same with (a := a) in Hs; [|reflexivity].
+    destruct (IHa Hwf Hs Hd) as [da [Hfa Hta]].
+    pose proof (Heval p a Hwf Hs Hd) as Ea.
+    rewrite D_fwd_Cos, (D_unary_start (Cos a) a da Ea eq_refl Hfa).
+    cbn [unary_formula]. rewrite Ea. cbn [bind]. rewrite D_mf_sine. cbn [bind].
+    eexists; split; [reflexivity|].
+    eapply tp_ext_value; [apply tp_cos; eassumption|].
+    D_norm. ring.
+  Qed.
+
+  Lemma D_case_nth_pow a n : D_P a -> D_P (NthPow a n).
+  Proof.
+    intros IHa Hwf Hs Hd. cbn [wf InDomain] in Hwf, Hd.
+    apply D_supplies_same with (a := a) in Hs; [|reflexivity].
+    destruct (IHa Hwf Hs Hd) as [da [Hfa Hta]].
+    pose proof (Heval p a Hwf Hs Hd) as Ea.
+    rewrite D_fwd_NthPow, (D_unary_start (NthPow a n) a da Ea eq_refl Hfa).
+    destruct (Pos.eq_dec n 1) as [Hn|Hn].
+    - subst n. exists da. split; [reflexivity | apply tp_nth_pow_1; exact Hta].
+    - rewrite (D_uf_NthPow a n da Hn), Ea. cbn [bind].
+      rewrite D_mf_nth_power. cbn [bind].
+      eexists; split; [reflexivity|].
+      eapply tp_ext_value; [apply tp_nth_pow; eassumption|].
+      D_norm. rewrite (D_to_nat_pred n Hn). ring.
+  Qed.
+
+  Lemma D_case_nth_root a n : D_P a -> D_P (NthRoot a n).
+  Proof.
+    intros IHa Hwf Hs Hd.
+    pose proof (Heval p (NthRoot a n) Hwf Hs Hd) as En. cbn [denote] in En.
+    cbn [wf InDomain] in Hwf, Hd. destruct Hd as [Hd Hroot].
+    apply D_supplies_same with (a := a) in Hs; [|reflexivity].
+    destruct (IHa Hwf Hs Hd) as [da [Hfa Hta]].
+    pose proof (Heval p a Hwf Hs Hd) as Ea.
+    rewrite D_fwd_NthRoot, (D_unary_start (NthRoot a n) a da Ea (D_verify_nth_root _ n Hroot) Hfa).
+    destruct (Pos.eq_dec n 1) as [Hn|Hn].
+    - subst n. exists da. split; [reflexivity | apply tp_nth_root_1; exact Hta].
+    - assert (Ha0 : denote rho a <> 0) by (destruct Hroot as [?|[? _]]; [contradiction | assumption]).
+      pose proof (D_root_neq_0 n _ Ha0) as Hr0.
+      rewrite (D_uf_NthRoot a n da Hn), En. cbn [bind].
+      rewrite D_mf_nth_power. cbn [bind].
+      rewrite D_mf_multiply. cbn [fold_right].
+      rewrite (D_to_nat_pred n Hn).
+      assert (Hn0 : IZR (Zpos n) <> 0) by (apply IZR_neq; discriminate).
+      rewrite D_mf_divide.
+      + eexists; split; [reflexivity|].
+        eapply tp_ext_value; [apply tp_nth_root; eassumption|].
+        rewrite Rmult_1_r. reflexivity.
+      + rewrite Rmult_1_r. apply Rmult_integral_contrapositive_currified; [exact Hn0|].
+        apply pow_nonzero; exact Hr0.
+  Qed.
+
+  Lemma D_case_exp a b : D_P a -> D_P (Exp a b).
+  Proof.
+    intros IHa Hwf Hs Hd.
+    pose proof (Heval p (Exp a b) Hwf Hs Hd) as En. cbn [denote] in En.
+    cbn [wf InDomain] in Hwf, Hd. destruct Hwf as [Hb Hwf].
+    change (Rltb 0 b = true) in Hb. apply Rltb_true in Hb.
+    apply D_supplies_same with (a := a) in Hs; [|reflexivity].
+    destruct (IHa Hwf Hs Hd) as [da [Hfa Hta]].
+    pose proof (Heval p a Hwf Hs Hd) as Ea.
+    rewrite D_fwd_Exp, (D_unary_start (Exp a b) a da Ea eq_refl Hfa).
+    cbn [unary_formula].
+    change (neqb RInst b (n1 RInst)) with (Reqb b 1).
+    change (neqb RInst b (n_e RInst)) with (Reqb b (exp 1)).
+    destruct (Reqb b 1) eqn:E1; [apply Reqb_true in E1 | apply Reqb_false in E1].
+    - exists 0. split; [reflexivity|].
+      eapply tp_ext_value; [apply tp_exp; eassumption|].
+      rewrite E1, ln_1. ring.
+    - rewrite En. cbn [bind].
+      destruct (Reqb b (exp 1)) eqn:Ee; [apply Reqb_true in Ee | apply Reqb_false in Ee].
+      + eexists; split; [reflexivity|].
+        eapply tp_ext_value; [apply tp_exp; eassumption|].
+        D_norm. rewrite Ee at 1. rewrite ln_exp. ring.
+      + rewrite D_mf_logarithm_e by exact Hb. cbn [bind].
+        eexists; split; [reflexivity|].
+        eapply tp_ext_value; [apply tp_exp; eassumption|].
+        D_norm. ring.
+  Qed.
+
+  Lemma D_case_log a b : D_P a -> D_P (Log a b).
+  Proof.
+    intros IHa Hwf Hs Hd.
+    cbn [wf InDomain] in Hwf, Hd. destruct Hwf as [Hb [Hb1 Hwf]]. destruct Hd as [Hd Ha0].
+    change (Rltb 0 b = true) in Hb. apply Rltb_true in Hb.
+    change (Reqb b 1 = false) in Hb1. apply Reqb_false in Hb1.
+    apply D_supplies_same with (a := a) in Hs; [|reflexivity].
+    destruct (IHa Hwf Hs Hd) as [da [Hfa Hta]].
+    pose proof (Heval p a Hwf Hs Hd) as Ea.
+    rewrite D_fwd_Log, (D_unary_start (Log a b) a da Ea (D_verify_logarithm _ Ha0) Hfa).
+    cbn [unary_formula]. rewrite Ea. cbn [bind].
+    change (neqb RInst b (n_e RInst)) with (Reqb b (exp 1)).
+    pose proof (ln_neq_0 b Hb Hb1) as Hln.
+    destruct (Reqb b (exp 1)) eqn:Ee; [apply Reqb_true in Ee | apply Reqb_false in Ee].
+    - rewrite D_mf_divide by lra.
+      eexists; split; [reflexivity|].
+      eapply tp_ext_value; [apply tp_log; eassumption|].
+      rewrite Ee, ln_exp. field. lra.
+    - rewrite D_mf_logarithm_e by exact Hb. cbn [bind].
+      rewrite D_mf_multiply. cbn [fold_right]. rewrite Rmult_1_r.
+      rewrite D_mf_divide by (apply Rmult_integral_contrapositive_currified; lra).
+      eexists; split; [reflexivity|].
+      eapply tp_ext_value; [apply tp_log; eassumption|]. reflexivity.
+  Qed.
+
+  Lemma D_fwd_sound_all (e : expr R) : D_P e.
+  Proof.
+    induction e as [c|x|l IHl|l IHl|a b IHa IHb|a b IHa IHb|a b IHa IHb
+                    |a IHa|a IHa|a IHa|a IHa|a n IHa|a n IHa|a b IHa|a b IHa] using expr_ind'.
+    - apply D_case_const.
+    - apply D_case_var.
+    - apply D_case_add; exact IHl.
+    - apply D_case_mul; exact IHl.
+    - apply D_case_minus; assumption.
+    - apply D_case_divide; assumption.
+    - apply D_case_power; assumption.
+    - apply D_case_neg; assumption.
+    - apply D_case_recip; assumption.
+    - apply D_case_sin; assumption.
+    - apply D_case_cos; assumption.
+    - apply D_case_nth_pow; assumption.
+    - apply D_case_nth_root; assumption.
+    - apply D_case_exp; assumption.
+    - apply D_case_log; assumption.
+  Qed.
 End D.
+
+Section Main.
+  Hypothesis Heval : C01_eval_sound.
+
+  Theorem fwd_sound : C03_fwd_sound.
+  Proof. intros p e v. apply (D_fwd_sound_all Heval p v e). Qed.
+
+  Theorem fwd_absent : C03_fwd_absent.
+  Proof.
+    intros p e v Hwf Hs Hd Hv.
+    destruct (fwd_sound p e v Hwf Hs Hd) as [d [Hf Ht]].
+    rewrite Hf. f_equal.
+    apply (tp_unique (env_of p) v e); [exact Ht | apply tp_absent; exact Hv].
+  Qed.
+End Main.
+
+(** Non-vacuity: the premises of both theorems hold on a tree with genuine domain constraints
+    (x ^ (y * log_2 x) at x = 2, y = 3; the variable 3 does not occur). *)
+Example D_premises_satisfiable :
+  let p : point R := [(1%positive, 2); (2%positive, 3)] in
+  let e : expr R :=
+    Power (Var 1%positive) (Mul [Var 2%positive; Log (Var 1%positive) 2]) in
+  wfR e /\ supplies p e /\ InDomain (env_of p) e /\ ~ In 3%positive (vars e).
+Proof.
+  cbv zeta. repeat split.
+  - change (Rltb 0 2 = true). apply Rltb_true. lra.
+  - change (Reqb 2 1 = false). apply Reqb_false. lra.
+  - intros x Hx. cbn in Hx.
+    destruct Hx as [Hx|[Hx|[Hx|[]]]]; subst x; cbn; discriminate.
+  - change (0 < 2). lra.
+  - change (0 < 2). lra.
+  - cbn. intros [H|[H|[H|[]]]]; discriminate.
+Qed.
+
+Print Assumptions fwd_sound.
+Print Assumptions fwd_absent.
